@@ -1077,7 +1077,7 @@ func main() {
 				"restarts_with_leases_compared": m.Counters["restarts_with_leases_compared"],
 				"db_equal_memory_nonempty":      m.Counters["db_equal_nonempty"],
 				"violating_transitions":         m.Counters["violating_transitions"],
-				"rule": "BFS over histories of DISCOVER / REQUEST (selecting, init-reboot, renew) / DECLINE / RELEASE from 3 (thorough 4) clients, static add/update/remove inside and outside a 3-address pool, +2h clock steps and restarts, every history executed on the real dhcpd.Create -> v4Server.handle / AddStaticLease / ... / onNotify -> dbStore / dbLoad in a fresh directory under the virtual clock. State = dump of lease list (in order), both indexes, pool bitset, leases.json and the reference model, expiry times relative to the clock. After every transition: table invariants (one record per address and per client, dynamic in pool, none on the gateway, list = hostname index = IP index = bitset), every OFFER/ACK checked against the reference (reservation honoured, address not acknowledged-unexpired or reserved for another client, ACKed lease present), leases.json = memory each once, restart leaves table and HostByIP/IPByHost/MACByIP/Leases answers unchanged, and a DISCOVER from a never-seen client gets an OFFER iff the reference has a free pool address. non-trivial = transition that changes the state key",
+				"rule":                          "level-synchronous BFS over histories of DISCOVER / REQUEST (selecting, init-reboot, renew) / DECLINE / RELEASE, static add/update/remove inside and outside a 3-address pool (also on the gateway and outside the subnet), +2h clock steps and restarts; quick: 3 clients, 92 operations, depth 4; thorough: the same alphabet to depth 6, then 4 clients / 3 hostnames / DISCOVER with requested address (205 operations) to depth 4. Every history is executed on the real dhcpd.Create -> v4Server.handle / AddStaticLease / UpdateStaticLease / RemoveStaticLease / onNotify -> dbStore / dbLoad in a fresh directory under the virtual clock. State = dump of the lease list (in order), both indexes, the pool bitset, leases.json and the reference model, expiry times relative to the clock; states are deduplicated globally (the shard processes exchange each level). After every transition: table invariants (one record per address and per client, dynamic in pool, none on the gateway, list = hostname index = IP index = bitset), every OFFER/ACK checked against the reference (reservation honoured, address not acknowledged-unexpired or reserved for another client, ACKed lease present and unexpired in the table), leases.json = memory each once, restart leaves the table and the HostByIP/IPByHost/MACByIP/Leases answers unchanged, and a DISCOVER from a never-seen client gets an OFFER iff the reference has a free pool address (checked on every reached state with an extra probe client). A violating state is reported and not extended. non-trivial = transition that changes the state key",
 			}
 		},
 		Assumptions: []string{
@@ -1085,7 +1085,7 @@ func main() {
 			"a lease record that was only offered (never acknowledged) may be given to another client when the pool is exhausted",
 			"restart = a new Create on the same data directory without an extra store (Stop stores nothing in the real code)",
 			"ICMP probing is off (icmp_timeout_msec 0), so no blocklisted leases; one process-wide virtual clock, 2h steps against a 1h lease",
-			"sharding is by first operation; states are deduplicated per shard, so the states count is the number of distinct keys over all shards and transitions include cross-shard repeats",
+			"violating states are not extended, so behaviour behind a reported defect is explored only after that defect is fixed",
 		},
 	})
 }
